@@ -262,6 +262,11 @@ def parse_statement(lexer, toplevel=False):
                             )
                         if lexer.peekn(1, ";", "interpunction"):
                             lexer.match(";", "interpunction")
+                    else:
+                        raise CklSyntaxError(
+                            f"Expected def but got '{lexer.peek()}'",
+                            lexer.getPosNext(),
+                        )
                 lexer.match("end", "keyword")
                 return result
             else:
